@@ -14,6 +14,8 @@ Json GenConfig::to_json() const {
   j.set("nvars", nvars);
   j.set("large", large);
   j.set("huge", huge);
+  if (bv_width)
+    j.set("bv_width", bv_width);
   std::string feats;
   auto add = [&](bool b, const char *n) {
     if (b)
@@ -118,6 +120,24 @@ struct FGen {
   FGen(Rng &rr, const GenConfig &cc, int *aid, int *hid) : r(rr), c(cc), next_id(0), assert_id(aid), havoc_id(hid) {}
 
   mpz_class constant() {
+    if (c.bv_width && r.chance(1, 4)) {
+      // BV profile: constants at the poles of the width
+      mpz_class half;
+      mpz_ui_pow_ui(half.get_mpz_t(), 2, (unsigned)c.bv_width - 1);
+      long d = (long)r.range(0, 2);
+      switch (r.below(5)) {
+      case 0:
+        return half - 1 - d;
+      case 1:
+        return -half + d;
+      case 2:
+        return half / 2 + d;
+      case 3:
+        return 2 * half - 1 - d; // unsigned max (fits the width as an unsigned number)
+      default:
+        return -(half / 2) - d;
+      }
+    }
     unsigned k = (unsigned)r.below(100);
     if (k < 55)
       return mpz_class((long)r.range(-5, 5));
@@ -462,6 +482,8 @@ struct FGen {
     for (int i = 0; i < c.nvars; i++) {
       VarDecl d;
       d.name = pre + "x" + std::to_string(i);
+      if (c.bv_width)
+        d.width = c.bv_width;
       f.vars.push_back(d);
       ints_rd.push_back(d.name);
       ints_wr.push_back(d.name);
@@ -489,7 +511,20 @@ struct FGen {
         narrow.push_back(n.name);
       }
     }
-    if (c.casts) {
+    if (c.casts && c.bv_width) {
+      if (c.bv_width < 64) {
+        VarDecl w;
+        w.name = pre + "w0";
+        w.width = std::min(64, 2 * c.bv_width);
+        f.vars.push_back(w);
+        wide.push_back(w.name);
+      }
+      VarDecl n;
+      n.name = pre + "n0";
+      n.width = std::max(1, c.bv_width / 2);
+      f.vars.push_back(n);
+      narrow.push_back(n.name);
+    } else if (c.casts) {
       VarDecl w;
       w.name = pre + "w0";
       w.width = 64;
@@ -504,6 +539,8 @@ struct FGen {
     for (int i = 0; i < n_in_int; i++) {
       VarDecl d;
       d.name = fname + "_p" + std::to_string(i);
+      if (c.bv_width)
+        d.width = c.bv_width;
       f.vars.push_back(d);
       ints_rd.push_back(d.name);
       f.inputs.push_back(d.name);
